@@ -170,6 +170,11 @@ func (op Divp) Disassembler(arch *Arch, instr string) (string, error) {
 }
 
 func (op Divp) Simulate(vm *VM, instr string) error {
+	// The pipeline phase belongs to the VM executing the instruction: the opcode object is one
+	// process-wide value shared by every processor of every VM.
+	phase, _ := vm.Extra_states["divp_pipeline"].(bool)
+	op.pipeline = &phase
+	defer func() { vm.Extra_states["divp_pipeline"] = phase }()
 	regBits := vm.Mach.R
 	regDest := get_id(instr[:regBits])
 	regSrc := get_id(instr[regBits : regBits*2])
